@@ -78,7 +78,7 @@ CHECKS = {
             'section 5 C15', 'Coq theorems on the accessor model + extracted-model differential run of all accessors'),
     'C16': ('proof', 'Theorems C16_duration, C16_offsets (offset of the k-th story = sum of the durations before it, any number of stories, '
             'dict semantics with unique IDs), C16_stories_table, C16_ro_duration, C16_start, C16_end, C16_ro_end over exact arithmetic. '
-            'PARTIAL: binary64 rounding is not modelled; dyadic decimals only. Correspondence as exact integers plus an arithmetic oracle.',
+            'PARTIAL: exact arithmetic in whole microseconds (duration texts with at most six fractional digits, dyadic or not); binary64 rounding below a microsecond is not modelled. Correspondence as exact integers plus an arithmetic oracle.',
             'section 5 C16', 'Coq theorems over exact integer arithmetic + extracted-model differential run'),
     'C17': ('proof', 'Theorems C17_body, C17_script (exactly the non-empty, non-technical paragraphs, stripped, in order), C17_strip, '
             'C17_ro_concat. Correspondence on paragraphs of every bracket / white-space shape and on roStorySend bodies; the white-space '
